@@ -22,6 +22,15 @@ Theorem c06_split_join : forall term ls, lines_ok term ls -> items term (join te
 Proof. intros term ls H. unfold items, records. apply split_join_go; [exact H | lia]. Qed.
 Print Assumptions c06_split_join.
 
+(** The framing does not depend on how the source hands out its bytes (pipe writes, a slow command,
+    any read-buffer size, a boundary between CR and LF or inside a multi-byte character): for every
+    division of the stream into non-empty pieces, BufRead::read_until's fill_buf / consume loop
+    yields the records of the whole stream. *)
+Theorem c06_chunk_independent : forall term chunks, Forall (fun c => c <> []) chunks ->
+  records_chunks term chunks = records term (concat chunks).
+Proof. exact records_chunks_spec. Qed.
+Print Assumptions c06_chunk_independent.
+
 (** filter mode prints, in input order, the output of exactly the matching items, each followed by
     the output ending; with a query that matches everything it prints them all *)
 Theorem c06_filter : forall Item (matches : Item -> bool) output ending its,
@@ -41,3 +50,11 @@ Proof.
   cbn zeta. split; [|vm_compute; reflexivity]. cbn -[In].
   repeat split; try discriminate; try (intros H; cbn in H; intuition discriminate).
 Qed.
+
+(** Non-vacuity: a CRLF split between two pieces, a piece holding two terminators, a last piece
+    without one. *)
+Example c06_chunks_example :
+  let chunks := [[97; 13]; [10; 98; 10; 10]; [99]]%N in
+  Forall (fun c => c <> []) chunks /\
+  records_chunks 10%N chunks = [[97; 13; 10]; [98; 10]; [10]; [99]]%N.
+Proof. cbn zeta. split; [repeat constructor; discriminate | vm_compute; reflexivity]. Qed.
